@@ -172,6 +172,20 @@ theorem C08_full_false : ¬ C08_full := by
 example : truncated (decodeLoop false 2 true []) (kfBytes ++ [9]) = false ∧
     (runExact (decodeLoop false 2 true []) (kfBytes ++ [9])).status = none := by decide +kernel
 
+/-- `CheckIntegrity` over a reader `s` with buffer size `size` -/
+def checkOver (fuel : Nat) (s : Sched) (size : Int) : Outcome CiOut := runRB (checkIntegrity fuel 0) (RB.fresh s size)
+
+/-- `CheckIntegrity` is chunk independent too: same number of completed sequences and same error for any two clean
+schedules and buffer sizes — up to the end-of-stream error class, exactly when the stream does not end inside a
+request (its `discardMessages` requests are at most `reservedbuf` bytes: part of the `Good` proof) -/
+theorem C08_checkIntegrity_indep (fuel : Nat) (s₁ s₂ : Sched) (size₁ size₂ : Int)
+    (h₁ : Clean s₁) (h₂ : Clean s₂) (hb : IsBytes (bytesOf s₁)) (heq : bytesOf s₁ = bytesOf s₂) :
+    ∃ o₁ o₂, checkOver fuel s₁ size₁ = .done o₁ ∧ checkOver fuel s₂ size₂ = .done o₂ ∧ o₁.merge = o₂.merge ∧
+      (truncated (checkIntegrity fuel 0) (bytesOf s₁) = false → o₁ = o₂) := by
+  obtain ⟨o₁, e₁, m₁, x₁⟩ := runRB_refines CiOut.merge _ (good_checkIntegrity fuel 0) _ _ (reset_inv RB.zero s₁ size₁) h₁ hb
+  obtain ⟨o₂, e₂, m₂, x₂⟩ := runRB_refines CiOut.merge _ (good_checkIntegrity fuel 0) _ _ (reset_inv RB.zero s₂ size₂) h₂ (heq ▸ hb)
+  exact ⟨o₁, o₂, e₁, e₂, by rw [m₁, m₂, heq], fun hnt => by rw [x₁ hnt, x₂ (heq ▸ hnt), heq]⟩
+
 /-! ## reader failures -/
 
 /-- READER ERRORS ARE RETURNED. The reader delivers `pre` (any chunks without error), then fails with error `e` —
@@ -234,6 +248,42 @@ theorem C08_reader_error (b : RB) (rest : Bytes) (hinv : Inv b rest) (n : Nat) (
 /-- non-vacuity: the reader delivers 2 bytes, then fails with error 7 together with a third byte; asked for 5 bytes,
 `ReadN` returns error 7 -/
 example : ((RB.fresh [⟨[1, 2], none⟩, ⟨[3], some (.custom 7)⟩, ⟨[4, 5, 6], none⟩] 0).readN 5).1 = .err (.custom 7) := by decide +kernel
+
+/-- DECODE RETURNS THE READER'S ERROR. One `Decode()` of a fresh decoder over ANY reader and any buffer size: if `ReadN`
+hands the decoder a failure of the reader, at whatever point (header, record header, definition, field value,
+developer field, CRC), `Decode` returns exactly that error — no success, no other error class. -/
+theorem C08_reader_error_decode (chk : Bool) (s : Sched) (size : Int) (e : RErr)
+    (h : firstReaderErr (decodeLoop chk 1 true []) (RB.fresh s size) = some e) :
+    ∃ o, runRB (decodeLoop chk 1 true []) (RB.fresh s size) = .done o ∧ o.status = some (.io e) :=
+  keeps_run _ (keeps_decodeOnce chk []) _ e h
+
+/-- the full statement for the documented loop `for dec.Next() { dec.Decode() }`: a failure of the reader handed to the
+decoder ends the loop with that error. FALSE on the pinned tree (`C08_reader_error_loop_false`, KF-C08-2). -/
+def C08_reader_error_loop_full : Prop :=
+  ∀ (chk : Bool) (fuel : Nat) (s : Sched) (size : Int) (e : RErr),
+    firstReaderErr (decodeLoop chk fuel true []) (RB.fresh s size) = some e →
+    ∃ o, decodeOver chk fuel s size = .done o ∧ o.status = some (.io e)
+
+/-- THE LOOP NEVER LOSES THE ERROR, BUT MAY NOT RETURN IT: a failure of the reader handed to the decoder is either the
+error the loop ends with, or — when `Next()` met it while reading the header of a second or later sequence — the
+loop ends silently (`status = none`) and the error is kept as the decoder's sticky error (`swallowed`). -/
+theorem C08_reader_error_loop_partial (chk : Bool) (fuel : Nat) (s : Sched) (size : Int) (e : RErr)
+    (h : firstReaderErr (decodeLoop chk fuel true []) (RB.fresh s size) = some e) :
+    ∃ o, decodeOver chk fuel s size = .done o ∧
+      (o.status = some (.io e) ∨ (o.status = none ∧ o.swallowed = some (.io e))) :=
+  keeps_run _ (keeps_decodeLoop chk fuel true []) _ e h
+
+/-- the witness of KF-C08-2: a complete one-record sequence, then the reader fails with error 7 instead of end of stream -/
+def kf2Sched : Sched := [⟨kfBytes ++ [9], none⟩, ⟨[], some (.custom 7)⟩]
+
+theorem C08_reader_error_loop_false : ¬ C08_reader_error_loop_full := by
+  intro h
+  obtain ⟨o, ho, hs⟩ := h false 3 kf2Sched 0 (.custom 7) (by decide +kernel)
+  have hd : (match decodeOver false 3 kf2Sched 0 with | .done o => o.status | .panic => none) = none := by decide +kernel
+  rw [ho] at hd
+  simp only at hd
+  rw [hd] at hs
+  cases hs
 
 /-! ## the raw decoder reads with `io.ReadFull` straight from the reader -/
 
